@@ -6,6 +6,7 @@ import (
 	"fmt"
 	"go/token"
 	"go/types"
+	"strings"
 
 	"golang.org/x/tools/go/ssa"
 )
@@ -339,7 +340,25 @@ func (w *World) checkFilterPosition(r *Report) {
 // checkSiblingCounters: the position()/last() closures.
 func (w *World) checkSiblingCounters(r *Report) {
 	n := 0
-	for _, cl := range w.sharedClosures() {
+	// candidates: the closures shared by all clones, and whatever the function
+	// dispatch binds to position() / last() (a closure or a named function)
+	cands := append([]*ssa.Function{}, w.sharedClosures()...)
+	for _, name := range []string{"position", "last"} {
+		for _, tf := range w.funcBindings()[name] {
+			if cl := w.closureOf(tf); cl != nil {
+				dup := false
+				for _, c := range cands {
+					if c == cl {
+						dup = true
+					}
+				}
+				if !dup {
+					cands = append(cands, cl)
+				}
+			}
+		}
+	}
+	for _, cl := range cands {
 		if len(cl.Params) != 2 || !w.isQueryType(cl.Params[0].Type()) || len(cl.FreeVars) != 0 {
 			continue
 		}
@@ -438,8 +457,7 @@ func (w *World) checkSiblingCounters(r *Report) {
 // ---------- C12-REV ----------
 
 func ruleRev(w *World, r *Report) {
-	r.rule("C12-REV", "reverse(): the transform function drains its input into a list of copies and the returned closure yields list[len-1], list[len-2], ..., list[0], then nil: the index starts at len(list), is decremented before each use and guarded by <= 0")
-	sel := w.selectMethod()
+	r.rule("C12-REV", "reverse(): the transform function is followed (absint.go) with an input that yields k symbolic nodes and then nil, for k = 0..4: it pulls the input to its end before returning its iterator, and that iterator, called k+2 times, yields copies of the nodes last to first, then nil, and nil again")
 	n := 0
 	for _, fn := range w.AllFuncs {
 		if fn.Parent() != nil || fn.Signature.Recv() != nil || !w.RunTime[fn] {
@@ -454,69 +472,17 @@ func ruleRev(w *World, r *Report) {
 		}
 		n++
 		r.FuncsAnalysed[fnName(fn)] = true
-		// drains the input: Select in a loop, append of Copy(), exit on nil
-		drains, copies := false, false
-		eachInstr(fn, false, func(_ *ssa.Function, in ssa.Instruction) {
-			if c, ok := in.(*ssa.Call); ok {
-				if c.Call.IsInvoke() && c.Call.Method.Name() == sel && c.Call.Value == ssa.Value(fn.Params[0]) {
-					for _, u := range uses(c) {
-						if bo, ok := u.(*ssa.BinOp); ok && isNilConst(bo.Y) {
-							drains = true
-						}
-					}
-				}
-				if c.Call.IsInvoke() && w.navMethodClass(c.Call.Method.Name()) == "copy" {
-					copies = true
-				}
-			}
-		})
 		key := fn.Name()
-		if drains && copies {
+		drained, order, why := w.reverseByInterp(fn)
+		if drained {
 			r.ok("C12-REV", key+":drain", w.pos(fn.Pos()), "input drained to nil into a list of copies")
 		} else {
-			r.bad("C12-REV", key+":drain", w.pos(fn.Pos()), fmt.Sprintf("the input is not fully drained into copies (drained=%v, copied=%v)", drains, copies))
+			r.bad("C12-REV", key+":drain", w.pos(fn.Pos()), "the input is not fully drained into copies: "+why)
 		}
-		// closure: index cell initialised with len(list), decremented, list[i] returned
-		for _, cl := range fn.AnonFuncs {
-			r.FuncsAnalysed[fnName(cl)] = true
-			okInit, okDec, okGuard := false, false, false
-			for _, fv := range cl.FreeVars {
-				a := cellOf(fv)
-				if a == nil || !isIntType(a.Type().(*types.Pointer).Elem()) {
-					continue
-				}
-				for _, st := range cellStores(a) {
-					if st.Parent() == fn && lenOperand(st.Val) != nil {
-						okInit = true
-					}
-					if st.Parent() == cl {
-						if bo, ok := st.Val.(*ssa.BinOp); ok && bo.Op == token.SUB {
-							if k, ok := constInt(bo.Y); ok && k == 1 {
-								okDec = true
-							}
-						}
-					}
-				}
-				for _, b := range cl.Blocks {
-					if ifi := blockIf(b); ifi != nil {
-						if bo, ok := ifi.Cond.(*ssa.BinOp); ok && (bo.Op == token.LEQ || bo.Op == token.LSS) {
-							if ld, ok := bo.X.(*ssa.UnOp); ok && cellOf(ld.X) == a {
-								if k, ok := constInt(bo.Y); ok && (bo.Op == token.LEQ && k == 0 || bo.Op == token.LSS && k == 1) {
-									// true edge returns nil
-									if ret, ok := normalReturn(b.Succs[0]); ok && isNilConst(strip(retVal(ret, 0))) {
-										okGuard = true
-									}
-								}
-							}
-						}
-					}
-				}
-			}
-			if okInit && okDec && okGuard {
-				r.ok("C12-REV", key+":order", w.pos(cl.Pos()), "yields the list from the last element down to the first, then nil")
-			} else {
-				r.bad("C12-REV", key+":order", w.pos(cl.Pos()), fmt.Sprintf("reverse order broken: starts at len=%v, steps down by one=%v, stops at 0 with nil=%v", okInit, okDec, okGuard))
-			}
+		if order {
+			r.ok("C12-REV", key+":order", w.pos(fn.Pos()), "yields the list from the last element down to the first, then nil")
+		} else {
+			r.bad("C12-REV", key+":order", w.pos(fn.Pos()), "reverse order broken: "+why)
 		}
 	}
 	if n == 0 {
@@ -588,4 +554,84 @@ func ruleTruth(w *World, r *Report) {
 	if r.count("C02-TRUTH") == 0 {
 		r.bad("C02-TRUTH", "filter", "", "predicate dispatch not found")
 	}
+}
+
+// reverseByInterp follows the transform function with an input that yields
+// k symbolic nodes and then nil (k = 0, 1, 2, 3, 4), then calls the iterator
+// it returned k+2 times: the input must have been pulled to its end, and the
+// iterator must give the nodes last to first, then nil, and nil again.
+func (w *World) reverseByInterp(fn *ssa.Function) (drained, order bool, why string) {
+	sel := w.selectMethod()
+	drained, order = true, true
+	for _, k := range []int{0, 1, 2, 3, 4} {
+		st := w.initState()
+		counter := st.newObj(nil, nil)
+		counter.Fields[0] = aInt(0)
+		var hooks AHooks
+		hooks.Call = func(ai *AInterp, s2 *AState, site ssa.CallInstruction, callee *ssa.Function, args []AVal) (bool, AVal) {
+			com := site.Common()
+			if !com.IsInvoke() || len(args) == 0 {
+				return false, AVal{}
+			}
+			switch {
+			case args[0].Tag == "q" && com.Method.Name() == sel:
+				c := s2.obj(counter)
+				i, _ := c.Fields[0].Int()
+				c.Fields[0] = aInt(i + 1)
+				if int(i) >= k {
+					return true, AVal{Kind: avNil}
+				}
+				o := s2.newObj(nil, nil)
+				o.Extern = true
+				return true, AVal{Kind: avPtr, Obj: o, Field: -1, Tag: fmt.Sprintf("n%d", i)}
+			case strings.HasPrefix(args[0].Tag, "n") && w.navMethodClass(com.Method.Name()) == "copy":
+				o := s2.newObj(nil, nil)
+				o.Extern = true
+				return true, AVal{Kind: avPtr, Obj: o, Field: -1, Tag: args[0].Tag}
+			case args[0].Tag == "q":
+				return true, aUnknown(nil) // re-arming the input and the like
+			}
+			return false, AVal{}
+		}
+		ai := w.newInterp(hooks)
+		ai.MaxVisits = k + 4
+		outs := ai.Exec(fn, []AVal{{Kind: avUnknown, Tag: "q"}, {Kind: avUnknown, Tag: "t"}}, nil, st)
+		if len(outs) != 1 || outs[0].Cut || outs[0].Panicked || outs[0].Ret.Kind != avFunc {
+			return false, false, fmt.Sprintf("with %d input nodes the function could not be followed to the iterator it returns", k)
+		}
+		cur := outs[0].St
+		pulled, _ := cur.obj(counter).Fields[0].Int()
+		if int(pulled) != k+1 {
+			drained = false
+			why = fmt.Sprintf("with %d input nodes the input is pulled %d times before the iterator is returned (expected %d: every node and the final nil)", k, pulled, k+1)
+		}
+		it := outs[0].Ret
+		var got []string
+		for j := 0; j < k+2; j++ {
+			var cargs []AVal
+			for range it.Fn.Params {
+				cargs = append(cargs, aUnknown(nil))
+			}
+			ro := ai.Exec(it.Fn, cargs, it.Bind, cur)
+			if len(ro) != 1 || ro[0].Cut || ro[0].Panicked {
+				return drained, false, fmt.Sprintf("with %d input nodes, call %d of the iterator could not be followed (or panics)", k, j+1)
+			}
+			cur = ro[0].St
+			if ro[0].Ret.Kind == avNil {
+				got = append(got, "nil")
+			} else {
+				got = append(got, ro[0].Ret.Tag)
+			}
+		}
+		var want []string
+		for i := k - 1; i >= 0; i-- {
+			want = append(want, fmt.Sprintf("n%d", i))
+		}
+		want = append(want, "nil", "nil")
+		if strings.Join(got, ",") != strings.Join(want, ",") {
+			order = false
+			why = fmt.Sprintf("for an input yielding n0..n%d the iterator yields %v, expected %v", k-1, got, want)
+		}
+	}
+	return drained, order, why
 }
